@@ -151,7 +151,11 @@ func init() {
 		distinct := map[string]bool{}
 		r := rand.New(rand.NewSource(seed*31 + 5))
 		runOne := func(sc Scenario, tag string) bool {
-			sc.Probe = footprintProbe
+			// (the footprint of every request, and — after get-and-touch / touch — the expiry of the
+			// metadata entry and of every chunk it refers to)
+			sc.Probe = func(sc Scenario, i int, st *Stack, d *Driver, ob StepObs) []Violation {
+				return append(footprintProbe(sc, i, st, d, ob), ttlProbe(sc, i, st, d, ob)...)
+			}
 			var out Outcome
 			for attempt := 0; attempt < 3; attempt++ {
 				out = RunScenarioO(d, sc, 3*time.Second, true)
